@@ -38,6 +38,8 @@ CONCLUSION = {
     "flush-invisible-to-reads": "C07_pipelined_get / C07_pipelined_flush_invisible: reads of a pipelined transaction = latest of (mutable buffer, flushing buffer, flushed store incl. tombstones, snapshot), whatever the flush schedule and the batch-get cache hold",
     "flush-accepted-iff-no-staging-level": "PipelinedMemDB.Flush(true) is refused exactly when a staging level is open",
     "snapshot-batchget=base-overlay": "C07_snapshot_batch_get: BufferSnapshotBatchGetter = staging-blind view of the buffer overlaid on the snapshot, snapshot asked exactly for the keys the view does not hold",
+    "snapshot-object=view-at-creation-or-invalid": "C07_snapshot_seq: a MemBufferSnapshot object used after further operations answers with the staging-blind view of its creation, or refuses (SnapshotSeqNo moved)",
+    "dirty-is-monotone": "C07_dirty_monotone: Dirty() never goes back to false",
     "history-head=buffered-value": "SelectValueHistory starts at the buffered value; a key without value has no history",
     "inspect-stage-covers-changes": "InspectStage(h) reports every key whose buffered value changed since Staging h, each once",
 }
